@@ -946,7 +946,13 @@ func phiNilInfeasible(f *ssa.Function) []edge {
 				break
 			}
 			nilSucc, _ := phiNilBranch(phi)
-			if nilSucc == nil {
+			// (a φ of errors that is what the block returns: entering along an edge whose value is known non-nil is a
+			// failing exit, whatever the other edges bring — the single-exit form `if err == nil { … err = … }; return err`)
+			returned := false
+			if r, isR := B.Instrs[len(B.Instrs)-1].(*ssa.Return); isR && len(r.Results) > 0 && r.Results[len(r.Results)-1] == ssa.Value(phi) && isErrType(phi.Type()) {
+				returned = true
+			}
+			if nilSucc == nil && !returned {
 				continue
 			}
 			for i, v := range phi.Edges {
@@ -984,8 +990,11 @@ func phiNilInfeasible(f *ssa.Function) []edge {
 				if !known && len(B.Preds[i].Instrs) > 0 {
 					known = nonNilErr(v, B.Preds[i].Instrs[len(B.Preds[i].Instrs)-1])
 				}
-				if known {
+				if known && nilSucc != nil {
 					out = append(out, edge{from: B, to: nilSucc, via: B.Preds[i]})
+				}
+				if known && returned {
+					out = append(out, edge{from: B.Preds[i], to: B})
 				}
 			}
 		}
@@ -2767,4 +2776,15 @@ func uniqStrs(in []string) []string {
 		}
 	}
 	return out
+}
+
+// usesValue: in has v among its operands
+func usesValue(in ssa.Instruction, v ssa.Value) bool {
+	var buf [8]*ssa.Value
+	for _, op := range in.Operands(buf[:0]) {
+		if op != nil && *op == v {
+			return true
+		}
+	}
+	return false
 }
